@@ -3,12 +3,23 @@ PROP = {
     "props_v": "Props/C15.v",
     "extra_v": ["CodecRun.v"],
     "gen_bins": ["test"],
-    "gen_obligations": [],
+    "gen_obligations": [
+        "c15_gen_report_serialize@Layouts", "c15_gen_report_deserialize@Layouts", "c15_gen_report_signing@Layouts",
+        "c15_gen_auth_serialize@Layouts", "c15_gen_auth_deserialize@Layouts", "c15_gen_reg_signing@Layouts",
+    ],
     "suites": [("test", "codec")],
-    "assumptions": [],
+    "run_vo": "CodecRun.vo",
+    "assumptions": [
+        "authorized-server / migration theorems assume locations of at most 255 bytes (the length byte is the length modulo 256); beyond that the round trip and the injectivity of migration signing bytes are refuted (c15_aserver_roundtrip_beyond_255_refuted, c15_migration_signing_beyond_255_refuted)",
+        "the stream decoder's outcome is modelled relative to memlimit = the largest block the Go runtime can allocate; c15_stream_total holds for every memlimit that can hold a copy of the input, the harness runs hostile headers in a child process limited to 2 GB of address space",
+        "c15_changed_signed_value_rejected is proved for an arbitrary verify under which one signature is valid for at most one message per key; that the real glow.Verify (secp256k1/Keccak-256) rejects every single-bit flip of message, signature and key, and that glow.Sign is deterministic, is tested by the harness oracle, not proved",
+        "JSON transport of an authorization (encoding/json) is tested (bitwise equality after Marshal/Unmarshal, incl. -0, subnormals, 17-digit values), not proved",
+        "the server-side repository has no decoder for AuthorizedServer / EquipmentMigration: the reference decoders of CodecServers.v establish unique decodability of the REAL encoder output (checked on every harness case), the client's sync parser belongs to C10",
+        "fixed-width layouts are re-derived from the Go source by a go/ast walker (harness/suites/layouts.go); variable-length encoders (statistics, server map, authorized server, migration) are tied to the model by the correspondence run and known-answer vectors only",
+    ],
 }
 TEXT = {
-    "text": "wip",
-    "note": "wip",
-    "technique": "wip",
+    "text": "Coq theorems over all field values and all byte strings: per structure decode(encode x) = x, refusal of every other length, encode(decode b) = b, explicit little-endian layout, signing bytes = ASCII structure name ++ fields and injective in the signed fields; pairwise disjointness of the six signing-byte languages for all field values; stream decoder of weekly statistics returns the exact consumed length, decodes concatenations of k records, refuses truncations and (after the D15 repair, commit f245dd2) is total: never fatal, fuel never exhausted; client server map round-trips as a finite map for every entry order; a generic theorem turns every well-formed (offset,width,field,kind) layout into a codec and the layouts of the fixed-width Go functions, re-extracted by go/ast on every run, are proved equal to the documented ones; the reference codecs are compared with the real encoders/decoders (bytes, accepted/refused, consumed lengths) on boundary and random values, lengths K-2..K+2, streams of 0..3 records, maps with locations 0..65535; the real glow.Verify is tested on all single-bit flips.",
+    "note": "Trusted: Coq kernel + vm_compute, the layout translator, the harness (generators, run-length encoding of long byte strings, child-process runner). Modelled, not verified: secp256k1/Keccak (arbitrary verify with a binding hypothesis), encoding/json, the Go allocator (memlimit parameter). Authorized-server locations above 255 bytes are outside the proved domain (two refuted statements exhibit the truncation).",
+    "technique": "Coq proof (structural induction over byte lists, generic layout interpreter proved once + vm_compute on regenerated layouts) + differential correspondence (vm_compute) + known-answer vectors + real-crypto bit-flip oracle",
 }
